@@ -78,6 +78,23 @@ def run(ck: Check) -> None:
         want.append("E InvalidSignature")
         cases.append(Case("vgpg", [gen.raw_entry(k, data) | {"other_headers": hdr.hex()}, k.hex, data], tag="raw-signature-in-gpg-shape", group=i))
         want.append("E InvalidSignature")
+    # signatures whose first octet(s) are zero, presented as an OpenPGP MPI would carry them (leading zero octets dropped): not 64 bytes, not a signature
+    found = 0
+    for j in range(4000):
+        k = gen.key(j % 10)
+        data = b"lz%d" % j
+        hdr = gen.GPG_HDR_TYPICAL
+        e = gen.gpg_entry(k, data, hdr)
+        if e["signature"].startswith("00"):
+            cases.append(Case("vgpg", [e, k.hex, data], tag="valid-leading-zero", group=900 + found))
+            want.append("OK")
+            cases.append(Case("vgpg", [{**e, "signature": e["signature"][2:]}, k.hex, data], tag="leading-zero-octet-dropped", group=900 + found))
+            want.append("E ArgError")
+            cases.append(Case("vgpg", [{**e, "signature": e["signature"][2:] + "00"}, k.hex, data], tag="leading-zero-octet-moved-to-end", group=900 + found))
+            want.append("E InvalidSignature")
+            found += 1
+            if found >= (6 if ck.thorough else 2):
+                break
     res = ck.run_cases(cases, "corr:verify_gpg_signature/outcome-class")
     for r, w in zip(res, want):
         ck.oracle_checks += 1
